@@ -2632,7 +2632,7 @@ class SwiftCompilerShellCommand : public ExternalCommand {
   std::string numThreads = "0";
 
   virtual CommandSignature getSignature() const override {
-    return ExternalCommand::getSignature()
+    CommandSignature code = ExternalCommand::getSignature()
         .combine(executable)
         .combine(moduleName)
         .combine(moduleAliases)
@@ -2643,6 +2643,12 @@ class SwiftCompilerShellCommand : public ExternalCommand {
         .combine(tempsPath)
         .combine(otherArgs)
         .combine(isLibrary);
+    // Whole module optimization changes the command line. It is only hashed
+    // when enabled, so the signatures of all other commands are unchanged.
+    if (enableWholeModuleOptimization) {
+      code = code.combine(enableWholeModuleOptimization).combine(numThreads);
+    }
+    return code;
   }
 
   /// Get the path to use for the output file map.
